@@ -103,12 +103,14 @@ func genOntVariant(r *hx.Rand) []byte {
 		case 2:
 			s.VM = 3
 			s.Strs[4] = bytes.Repeat([]byte{'d'}, 65535+r.Intn(3))
-		case 3:
-			s.VM = 3
-			s.Code = bytes.Repeat([]byte{0}, 512*1024+r.Intn(2))
-		case 4:
-			s.VM = 1
-			s.Code = bytes.Repeat([]byte{7}, 512*1024+1)
+		case 3, 4: // code size limits (rare: half a megabyte per case; the exact boundaries are in the corpus)
+			if r.Chance(4) {
+				s.VM = []byte{1, 3}[r.Intn(2)]
+				s.Code = bytes.Repeat([]byte{0}, 512*1024+r.Intn(2))
+			} else {
+				s.VM = 3
+				s.Code = r.Bytes(300 + r.Intn(3))
+			}
 		default:
 			s.VM = byte(r.Intn(4))
 		}
@@ -429,6 +431,15 @@ func corpus() []string {
 		out, _, _ := s.Encode()
 		add("raw", out)
 	}
+	// deploy code size limits: wasm 512 KiB / +1, neovm 512 KiB + 1 (accepted: its limit is above MAX_TX_SIZE)
+	for _, x := range []struct {
+		vm byte
+		n  int
+	}{{3, 512 * 1024}, {3, 512*1024 + 1}, {1, 512*1024 + 1}} {
+		d := &g.OntSpec{Ty: 0xd0, SigCount: -1, WidenIdx: -1, VM: x.vm, Code: bytes.Repeat([]byte{9}, x.n)}
+		b, _, _ := d.Encode()
+		add("raw", b)
+	}
 	// ALL single-byte mutations (five replacement values per position) of one invoke, one deploy and one EIP-155 transaction
 	r := hx.NewRand(19)
 	bases := [][]byte{}
@@ -471,6 +482,6 @@ func main() {
 		Gen:    gen,
 		Exec:   exec,
 		Corpus: corpus(),
-		N:      map[string]int{"quick": 12000, "thorough": 400000},
+		N:      map[string]int{"quick": 12000, "thorough": 250000},
 	})
 }
